@@ -1,5 +1,6 @@
 //! Shared machinery of the runtime monitors (generators, probes, bookkeeping, event log).
 #![allow(dead_code)]
+pub mod conc;
 pub mod events;
 pub mod flat;
 pub mod gen;
